@@ -612,9 +612,220 @@ def run_notify(acc, rng, case):
     return R
 
 
+# ------------------------------------------------------------------ the real registries, together
+
+def run_real_together(acc, rng, case, family):
+    """The library's own registries (CmdPeriod + StartUp + ShutDown, or
+    ServerBoot + ServerTree + ServerQuit) hold actions AT THE SAME TIME; running
+    one of them must run exactly the actions registered in *that* registry, in
+    registration order; remove() through one registry leaves the others alone.
+    The actions the library itself keeps there are left in place and not judged
+    (remove_all() is therefore not used here); everything the case adds is
+    removed again at its end.  (NRT worker: CmdPeriod.run() clears no clock and
+    no server is running.)"""
+    from sc3.base import systemactions as sac
+    from sc3.synth.server import Server
+    if family == 'system':
+        regs = {'CmdPeriod': sac.CmdPeriod, 'StartUp': sac.StartUp, 'ShutDown': sac.ShutDown}
+        label = 'SystemAction'
+        skeys = [None]
+    else:
+        regs = {'ServerBoot': sac.ServerBoot, 'ServerTree': sac.ServerTree,
+                'ServerQuit': sac.ServerQuit}
+        label = 'ServerAction'
+        skeys = [Server.default, 'all', 'default']
+    R = Runner(acc, rng, case, label)
+    buckets = {(n, _sk(k)): Bucket() for n in regs for k in skeys}
+    funcs = {}
+    startup_done = sac.StartUp.done
+
+    def make(aid):
+        if family == 'system':
+            def action(*a, **k):
+                R.calls.append((aid, (a, k)))
+                op = R.armed.pop(aid, None)
+                if op is not None:
+                    R.feat['in_run_ops'] += 1
+                    acc.count('registry_in_run_ops')
+                    apply(op, inside=True)
+                R.after_call(aid)
+        else:
+            def action(server, *a, **k):
+                R.calls.append((aid, (server, a, k)))
+                op = R.armed.pop(aid, None)
+                if op is not None:
+                    R.feat['in_run_ops'] += 1
+                    acc.count('registry_in_run_ops')
+                    apply(op, inside=True)
+                R.after_call(aid)
+        action.__name__ = f'a{aid}'
+        return action
+
+    def apply(op, inside=False):
+        name, reg, sk, aid = op[0], op[1], op[2], op[3]
+        if not inside:
+            R.log.append([name, reg, repr(sk), aid] + [list(x) if isinstance(x, (list, tuple))
+                                                        else x for x in op[4:]])
+        cls, b = regs[reg], buckets[(reg, _sk(sk))]
+        if name == 'add':
+            args = op[4]
+            f = funcs.setdefault(aid, make(aid))
+            if aid not in funcs or (not inside and not any(aid in x.entries
+                                                            for x in buckets.values())):
+                R.maybe_fault(aid)
+            if family == 'system':
+                cls.add(f, *args)
+            else:
+                cls.add(sk, f, *args)
+            b.add(aid, R.tick(), args=tuple(args), once=False)
+            if inside:
+                R.touched.add(aid)
+                R.readded.add(aid)
+        elif name == 'do_once':
+            f = funcs.setdefault(aid, make(aid))
+            cls.do_once(f, *op[4])
+            b.add(aid, R.tick(), args=tuple(op[4]), once=True)
+        elif name == 'remove':
+            was = aid in b.entries
+            if family == 'system':
+                cls.remove(funcs[aid])
+            else:
+                cls.remove(sk, funcs[aid])
+            b.remove(aid)
+            R.feat['removes'] += 1
+            R._removed_since_run = True
+            if inside and was and (reg, _sk(sk)) in (R.running or ()):
+                R.touched.add(aid)
+                R.removed_at.setdefault(aid, len(R.calls))
+
+    def run(reg):
+        R.log.append(['run', reg])
+        R.calls.clear(); R.touched.clear(); R.removed_at.clear(); R.readded.clear()
+        if family == 'system':
+            use = [(reg, _sk(None))]
+            call = regs[reg].run
+        else:
+            use = [(reg, _sk(Server.default)), (reg, 'default'), (reg, 'all')]
+            call = lambda: regs[reg].run(Server.default)
+        R.running = set(use)
+        expected, home = {}, {}
+        for u in use:
+            expected.update(buckets[u].entries)
+            for a in buckets[u].entries:
+                home[a] = buckets[u]
+        snapshot = {a: dict(home[a].entries[a]) for a in home}
+        elsewhere = {a for k, b in buckets.items() if k not in use for a in b.entries}
+        R.run_library(call)
+        foreign = [k for k, _ in R.calls if k not in expected and k in elsewhere
+                   and k not in R.touched]
+        acc.count('registry_real_runs_with_actions_elsewhere', bool(elsewhere - set(expected)))
+        if foreign:
+            where = sorted({k[0] for k, b in buckets.items() for a in foreign
+                            if a in b.entries})
+            R.violation('ran-action-of-another-registry', ran=foreign, run=reg,
+                        registered_only_in=where)
+
+        def check_args(key, ent, payload):
+            if family == 'system':
+                a, k = payload
+            else:
+                srv_, a, k = payload
+                if srv_ is not Server.default:
+                    return f'server argument {srv_!r}'
+            if tuple(a) != ent['args'] or k:
+                return f'got {a!r} {k!r} expected {ent["args"]!r}'
+
+        class _Snap:            # order relation as registered when the run began
+            def __init__(self, b):
+                self.b = b
+
+            def before(self, x, y):
+                ex, ey = snapshot[x], snapshot[y]
+                return ex['first'] < ey['first'] and ex['last'] < ey['last']
+        snaps = {id(b): _Snap(b) for b in home.values()}
+        R.running_done = True
+        R.compare(expected, lambda key: snaps[id(home[key])], check_args)
+        R.running = None
+        for u in use:
+            for k, e in list(buckets[u].entries.items()):
+                if e.get('once') and any(c[0] == k for c in R.calls):
+                    buckets[u].remove(k)
+                    R.spent_once.add(k)
+
+    R.running = None
+    try:
+        next_aid = 0
+        names = sorted(regs)
+        for _ in range(rng.randint(6, 40)):
+            placed = [(k, a) for k, b in buckets.items() for a, e in b.entries.items()
+                      if not e.get('once')]
+            r = rng.random()
+            if r < 0.4 or not placed:
+                reg, sk = rng.choice(names), rng.choice(skeys)
+                aid = None
+                if placed and rng.random() < 0.3:
+                    # the same callable in a second registry (or re-added to the
+                    # same table); at most one table per registry, so that one
+                    # run calls it at most once
+                    cand = rng.choice(placed)[1]
+                    homes = [k for k, b in buckets.items() if cand in b.entries and k[0] == reg]
+                    if not homes or homes == [(reg, _sk(sk))]:
+                        aid = cand
+                if aid is None:
+                    aid = next_aid; next_aid += 1
+                args = [rng.randint(0, 9) for _ in range(rng.choice([0, 0, 1, 2]))]
+                R.guarded('add', lambda: apply(('add', reg, sk, aid, args)))
+            elif r < 0.45 and family == 'system':
+                aid = next_aid; next_aid += 1
+                R.guarded('do_once', lambda: apply(('do_once', 'CmdPeriod', None, aid,
+                                                    [rng.randint(0, 9)])))
+            elif r < 0.6:
+                (reg, skr), aid = rng.choice(placed)
+                sk = next(k for k in skeys if _sk(k) == skr)
+                R.guarded('remove', lambda: apply(('remove', reg, sk, aid)))
+            elif r < 0.7 and len(placed) >= 2:
+                (_, _), holder = rng.choice(placed)
+                (reg, skr), target = rng.choice(placed)
+                sk = next(k for k in skeys if _sk(k) == skr)
+                R.armed[holder] = ('remove', reg, sk, target)
+                R.log.append(['arm', holder, 'remove', reg, repr(sk), target])
+            else:
+                R.guarded('run', lambda: run(rng.choice(names)))
+        for n in names:
+            R.guarded('run', lambda: run(n))
+    except Stop:
+        pass
+    finally:
+        for (reg, skr), b in buckets.items():
+            sk = next(k for k in skeys if _sk(k) == skr)
+            for aid in funcs:
+                try:
+                    if family == 'system':
+                        regs[reg].remove(funcs[aid])
+                    else:
+                        regs[reg].remove(sk, funcs[aid])
+                except Exception:
+                    pass
+        # pending do_once wrappers of this case: run them off with the guard on
+        if family == 'system':
+            R.faults.clear()
+            try:
+                if any(e.get('once') for b in buckets.values() for e in b.entries.values()):
+                    sac.CmdPeriod.run()
+            except Exception:
+                pass
+            sac.StartUp.done = startup_done
+    return R
+
+
+def _sk(k):
+    return k if isinstance(k, str) or k is None else 'server'
+
+
 def run(spec, acc):
     from sc3.base.systemactions import SystemAction, CmdPeriod, StartUp
-    kinds = ['system', 'startup', 'cmdperiod', 'server', 'notify']
+    kinds = ['system', 'startup', 'cmdperiod', 'server', 'notify', 'real-system',
+             'real-server']
     for i in iter_cases(spec):
         rng = case_rng(spec['seed'], 'C18', 'reg', i)
         kind = kinds[i % len(kinds)]
@@ -626,6 +837,10 @@ def run(spec, acc):
             R = run_system(acc, rng, i, CmdPeriod, 'CmdPeriod', True)
         elif kind == 'server':
             R = run_server(acc, rng, i)
+        elif kind == 'real-system':
+            R = run_real_together(acc, rng, i, 'system')
+        elif kind == 'real-server':
+            R = run_real_together(acc, rng, i, 'server')
         else:
             R = run_notify(acc, rng, i)
         f = R.feat
